@@ -514,10 +514,12 @@ func c01R3(p *Prog, r *Report) {
 		return
 	}
 	r.Fn(FuncName(ps))
-	var waits, gosPrim, gosSec, dist, trims []ssa.Instruction
-	Instrs(ps, func(in ssa.Instruction) {
+	// the events may sit in ProcessSegments itself or in module helpers it calls (two levels)
+	var waits, gosPrim, gosSec, dist, trims []DeepInstr
+	InstrsDeep(ps, 2, func(d DeepInstr) {
+		in := d.In
 		if IsCallTo(in, "(*sync.WaitGroup).Wait") {
-			waits = append(waits, in)
+			waits = append(waits, d)
 		}
 		if g, ok := in.(*ssa.Go); ok {
 			for _, f := range ResolveOr(p, g) {
@@ -527,37 +529,41 @@ func c01R3(p *Prog, r *Report) {
 					callsS = callsS || calleeNamed(x, "processSecondaries")
 				})
 				if callsP {
-					gosPrim = append(gosPrim, in)
+					gosPrim = append(gosPrim, d)
 				}
 				if callsS {
-					gosSec = append(gosSec, in)
+					gosSec = append(gosSec, d)
 				}
 			}
 		}
 		if calleeNamed(in, "Distribute") {
-			dist = append(dist, in)
+			dist = append(dist, d)
 		}
 		if calleeNamed(in, "TrimStream", "TrimKeepingN") {
-			trims = append(trims, in)
+			trims = append(trims, d)
 		}
 	})
-	sort.Slice(waits, func(i, j int) bool { return InstrDominates(waits[i], waits[j]) })
+	sort.SliceStable(waits, func(i, j int) bool { return DeepDominates(waits[i], waits[j]) })
+	if len(gosPrim) > 0 && len(gosSec) > 0 && len(dist) > 0 && len(trims) > 0 && len(waits) < 2 {
+		r.Bad("C01.R3", "ProcessSegments fan-out/fan-in shape", p.Pos(ps.Pos()), fmt.Sprintf("primary and secondary record cutting both run in goroutines but there are only %d WaitGroup.Wait joins: one is needed before Distribute and one before the streams are trimmed", len(waits)))
+		return
+	}
 	if len(waits) < 2 || len(gosPrim) == 0 || len(gosSec) == 0 || len(dist) == 0 || len(trims) == 0 {
-		r.Bad("C01.R3", "ProcessSegments fan-out/fan-in shape", p.Pos(ps.Pos()), fmt.Sprintf("expected two WaitGroup.Wait, primary and secondary goroutines, Distribute and TrimStream; found waits=%d prim=%d sec=%d distribute=%d trim=%d", len(waits), len(gosPrim), len(gosSec), len(dist), len(trims)))
+		r.Unk("C01.R3", "ProcessSegments fan-out/fan-in shape", p.Pos(ps.Pos()), fmt.Sprintf("expected two WaitGroup.Wait, primary and secondary goroutines, Distribute and TrimStream in ProcessSegments or its helpers; found waits=%d prim=%d sec=%d distribute=%d trim=%d", len(waits), len(gosPrim), len(gosSec), len(dist), len(trims)))
 		return
 	}
 	w1, w2 := waits[0], waits[len(waits)-1]
 	for _, g := range gosPrim {
-		r.Check(!InstrReaches(w1, g) && InstrReaches(g, w1), "C01.R3", "primary processing joins before distribution", p.InstrPos(g), "every processSegment goroutine is started before the first Wait", "a primary-processing goroutine can start after the first Wait: group-trigger distribution would read unfinished trigger lists")
+		r.Check(!DeepReaches(w1, g) && DeepReaches(g, w1), "C01.R3", "primary processing joins before distribution", p.InstrPos(g.In), "every processSegment goroutine is started before the first Wait", "a primary-processing goroutine can start after the first Wait: group-trigger distribution would read unfinished trigger lists")
 	}
 	for _, d := range dist {
-		r.Check(InstrDominates(w1, d) && InstrDominates(d, w2), "C01.R3", "distribution between the two joins", p.InstrPos(d), "first Wait < Distribute < second Wait", "Distribute is not between the two joins")
+		r.Check(DeepDominates(w1, d) && DeepDominates(d, w2), "C01.R3", "distribution between the two joins", p.InstrPos(d.In), "first Wait < Distribute < second Wait", "Distribute is not between the two joins")
 	}
 	for _, g := range gosSec {
-		r.Check(InstrDominates(dist[0], g) && InstrReaches(g, w2) && !InstrReaches(w2, g), "C01.R3", "secondary processing joins before trimming", p.InstrPos(g), "started after Distribute, joined by the second Wait", "a secondary-processing goroutine is not joined before the streams are trimmed")
+		r.Check(DeepDominates(dist[0], g) && DeepReaches(g, w2) && !DeepReaches(w2, g), "C01.R3", "secondary processing joins before trimming", p.InstrPos(g.In), "started after Distribute, joined by the second Wait", "a secondary-processing goroutine is not joined before the streams are trimmed")
 	}
 	for _, t := range trims {
-		r.Check(InstrDominates(w2, t), "C01.R3", "streams trimmed only after all records are cut", p.InstrPos(t), "TrimStream is dominated by the second Wait", "a stream can be trimmed while a channel may still be cutting (secondary) records from it")
+		r.Check(DeepDominates(w2, t), "C01.R3", "streams trimmed only after all records are cut", p.InstrPos(t.In), "TrimStream is dominated by the second Wait", "a stream can be trimmed while a channel may still be cutting (secondary) records from it")
 	}
 }
 
